@@ -54,6 +54,10 @@ CHECKS["C17"] = dict(level="model_checking", engine="E1-enum",
    technique="exhaustive enumeration of every parser key path (reflection) and schema key path in both directions, every documented/accepted enumerated value, and generated valid configurations, judged by the schema the built binary emits (harness validator + python jsonschema on every document); byte comparison with the published file",
    text="The schema is produced by the nfpm binary built from the tree (-o file and stdout). The published www/docs/static/schema.json must be byte-identical. Every key path of the parser (163, by reflection over yaml tags) and every key path the schema allows are compared both ways and each is exercised with a minimal document through the real strict parser and the validator. Every value of every enumerated setting (13 content types, deb/rpm compression incl. algo:level, signature method/type, version_schema, the five override keys, platforms, documented architectures) in a document the parser accepts and the packager really builds must validate; so must the C01 entry templates and C02 metadata configurations. python jsonschema (Draft 2020-12) re-judges every document of the run and must agree with the harness validator (disagreement = harness error).",
    note="Trusted: the harness mini-validator for the keyword subset the schema uses (an unknown keyword is a harness error) and python jsonschema as second opinion; reflection over yaml tags as the statement of what the strict parser accepts, confirmed by real parses.", ref="§3 C17")
+CHECKS["C06"] = dict(level="fault_enumeration", engine="E3-fault",
+   technique="exhaustive fault enumeration on the real packagers: every destination-write index x 3 failure shapes, every file reference broken one at a time, every invalid-setting class, every signer call failing, and the built CLI on /dev/full and pre-existing targets",
+   text="For every format x {unsigned, signed} x compression class the writes of a clean run are counted and every write index k is failed as (error, short write, sticky from k on), each from a fresh parse; Package must return an error whenever the fault was consumed, and bytes accepted under a nil error are decoded. Every file reference of the configuration (content sources, each script slot, changelog, key file) is removed / replaced by a directory / made a dangling symlink, one at a time. 20 invalid-setting classes. A signing callback failing at each of its calls. The nfpm binary built from the tree is run with missing source, missing script, invalid settings, missing/invalid config file, a target (file or conventional name inside a directory) that is a symlink to /dev/full, and a pre-existing target: exit status != 0, a cause printed, nothing left at the target path.",
+   note="Trusted: the harness fault writer (counts Write calls; faults obey the io.Writer contract); /dev/full as ENOSPC device; a tree source that is itself a symlink is outside the alphabet.", ref="§3 C06")
 NOT_YET = {}
 ALL = ["C%02d" % i for i in range(1, 18)]
 
@@ -84,7 +88,8 @@ def main():
             "add_only": True,
         },
         "engines": [
-            {"name": "E1-enum", "path": "mc/engine", "serves_properties": sorted(CHECKS), "kind_free_text": "deterministic bounded-exhaustive enumeration of a declared case space, sharded over 16 worker processes, each case executed on the real code and judged by a reference model"},
+            {"name": "E1-enum", "path": "mc/engine", "serves_properties": sorted(k for k in CHECKS if CHECKS[k]["engine"]=="E1-enum"), "kind_free_text": "deterministic bounded-exhaustive enumeration of a declared case space, sharded over 16 worker processes, each case executed on the real code and judged by a reference model"},
+            {"name": "E3-fault", "path": "mc/props/c06.go", "serves_properties": sorted(k for k in CHECKS if CHECKS[k]["engine"]=="E3-fault"), "kind_free_text": "exhaustive enumeration of environment faults (failing write k, broken file reference, failing signer call, full device) against the real packagers and the built CLI"},
         ],
         "checks": checks,
         "not_applicable": na,
